@@ -25,6 +25,7 @@ import (
 	"os"
 	"path/filepath"
 	"sort"
+	"strconv"
 	"strings"
 
 	"golang.org/x/tools/go/packages"
@@ -86,6 +87,10 @@ type Stats struct {
 	Inits        int            `json:"inits"`
 	ReinitVars   int            `json:"reinit_vars"`
 	Sites        []Site         `json:"-"`
+	DictStrings  int            `json:"dict_strings"`
+	DictInts     int            `json:"dict_ints"`
+	dictS        map[string]bool
+	dictI        map[int64]bool
 	Overlay      string         `json:"overlay"`
 }
 
@@ -122,7 +127,7 @@ func Run(o Options) (*Stats, error) {
 	if len(o.Packages) == 0 {
 		o.Packages = DefaultPackages
 	}
-	st := &Stats{ImportSwaps: map[string]int{}, MapRangeKeys: map[string]int{}}
+	st := &Stats{ImportSwaps: map[string]int{}, MapRangeKeys: map[string]int{}, dictS: map[string]bool{}, dictI: map[int64]bool{}}
 	cfg := &packages.Config{
 		Mode: packages.NeedName | packages.NeedFiles | packages.NeedCompiledGoFiles | packages.NeedSyntax | packages.NeedTypes | packages.NeedTypesInfo | packages.NeedImports,
 		Dir:  o.Repo,
@@ -178,6 +183,24 @@ func Run(o Options) (*Stats, error) {
 	data, _ := json.MarshalIndent(ov, "", " ")
 	st.Overlay = filepath.Join(o.OutDir, "overlay.json")
 	if err := os.WriteFile(st.Overlay, data, 0644); err != nil {
+		return nil, err
+	}
+	var ds []string
+	for s := range st.dictS {
+		ds = append(ds, s)
+	}
+	sort.Strings(ds)
+	var di []int64
+	for v := range st.dictI {
+		di = append(di, v)
+	}
+	sort.Slice(di, func(a, b int) bool { return di[a] < di[b] })
+	st.DictStrings, st.DictInts = len(ds), len(di)
+	dict, _ := json.Marshal(struct {
+		Strings []string `json:"strings"`
+		Ints    []int64  `json:"ints"`
+	}{ds, di})
+	if err := os.WriteFile(filepath.Join(o.OutDir, "dict.json"), dict, 0644); err != nil {
 		return nil, err
 	}
 	sites, _ := json.Marshal(st.Sites)
@@ -327,6 +350,20 @@ func instrumentPackage(o Options, p *packages.Package, st *Stats, overlay map[st
 		}
 		ast.Inspect(fc.file, func(n ast.Node) bool {
 			switch n := n.(type) {
+			case *ast.BasicLit:
+				// Auto-dictionary: string and integer literals of the tree feed the
+				// engines' vocabularies and size choices, so that magic names and
+				// thresholds of the current code are reachable by the generators.
+				switch n.Kind {
+				case token.STRING:
+					if s, err := strconv.Unquote(n.Value); err == nil && len(s) >= 1 && len(s) <= 48 && !strings.ContainsAny(s, "\n\r\x00") && !strings.Contains(s, "%") {
+						st.dictS[s] = true
+					}
+				case token.INT:
+					if v, err := strconv.ParseInt(n.Value, 0, 64); err == nil && v >= 2 && v <= 100000 {
+						st.dictI[v] = true
+					}
+				}
 			case *ast.SelectStmt:
 				hasDefault := false
 				for _, c := range n.Body.List {
